@@ -127,6 +127,10 @@ EXTRA6 = {'C03': ' Round 9: comma lists in one Content-Length field.', 'C04': ' 
 for _k, _v in EXTRA6.items():
     C[_k]["text"] += _v
 
+EXTRA7 = {'C03': ' Round 10: blanks between digits; zero-padded lengths of 21 and 30 characters.', 'C05': ' Round 10: the library\'s log statements are evaluated (a logger that formats and discards every record is installed in the C05 processes).', 'C06': ' Round 10: reads into an empty buffer in mid-body.', 'C07': ' Round 10: a caller-supplied Content-Length that does not fit a body of known length.', 'C11': ' Round 10: host:port values whose host begins with http.', 'C18': ' Round 10: text_utf8() over every byte string of length <= 4 (also behind 8190 ASCII bytes).'}
+for _k, _v in EXTRA7.items():
+    C[_k]["text"] += _v
+
 PENDING = {
 }
 all_ids = [f"C{i:02d}" for i in range(1, 20)]
